@@ -151,11 +151,32 @@ class TArr:
         if not shp:
             # scalar cell: an uninterpreted real named by its provenance
             return SReal(z3.Real("cell[" + repr(("get", self.node, _key(t))) + "]"))
-        return TArr(("get", self.node, _key(t)), shp)
+        out = TArr(("get", self.node, _key(t)), shp)
+        if len(self.shape) == 1 and isinstance(t[0], slice) and t[0].step in (None, 1):
+            _register_slice(self, t[0], out)
+        return out
 
     def setitem(self, idx, val):
         self.node = ("set", self.node, _key(idx), _key(val))
         self.attrs = {}
+
+
+def _register_slice(parent, sl, part):
+    """Layout axiom (Frobenius norm of a vector cut in two): once both v[:a] and v[a:] of a 1-D array v have been taken,
+    ||v||^2 = ||v[:a]||^2 + ||v[a:]||^2  is assumed for the norm terms.  (A fact about slicing and the definition of the norm; listed
+    with the library axioms A3.)"""
+    c = cur()
+    reg = c.ghost.setdefault("term_slices", {})
+    lo = 0 if sl.start is None else sl.start
+    hi = parent.shape[0] if sl.stop is None else sl.stop
+    lst = reg.setdefault(parent.node, [])
+    for lo2, hi2, other in lst:
+        for (a0, a1, x), (b0, b1, y) in (((lo, hi, part), (lo2, hi2, other)), ((lo2, hi2, other), (lo, hi, part))):
+            cond = SBool.mk(z3.And(SInt.lift(a0) == 0, SInt.lift(a1) == SInt.lift(b0), SInt.lift(b1) == SInt.lift(parent.shape[0])))
+            if c.valid(cond) is True:
+                nv, nx, ny = norm_term([parent]), norm_term([x]), norm_term([y])
+                c.assume(nv * nv == nx * nx + ny * ny)
+    lst.append((lo, hi, part))
 
 
 def atom(name, shape, **attrs):
@@ -247,7 +268,7 @@ def np_complex(re, im):
             __slots__ = ()
 
             def __mul__(self, o):
-                if isinstance(o, TArr):
+                if isinstance(o, TArr) or getattr(o, "takes_complex_scalar", False):
                     return NotImplemented
                 return CScal.__mul__(self, o)
 
